@@ -1,9 +1,12 @@
 #!/bin/bash
-# Builds the harness workspace offline (release profile with debug assertions, see harness/Cargo.toml).
+# Builds the harness workspace offline (release profile with debug assertions, see harness/Cargo.toml)
+# and warms up the generated corpus crate of C16 / C20 (dev profile, own target directory).
 set -eu
 ROOT="$(cd "$(dirname "$0")" && pwd)"
 export CARGO_NET_OFFLINE=true
 cd "$ROOT/harness"
 cargo build --release --offline --workspace
 cargo test --release --offline -p mcx -p refcodec
+# a corpus that does not build is a verdict of C16, not a set-up failure
+"$ROOT/.target/release/schemamc" corpus-build quick || true
 echo "setup ok"
